@@ -268,11 +268,26 @@ def r8_5(ctx):
     ctx.begin("R8.5", "writers of project.time: initialize, the per-step increment (by one step), absence editors, JSON loaders", floor=4)
     allowed = {"__init__", "initialize", "simulate", "remove_absence_time_list", "insert_absence_time_list", "read_simple_json",
                "append_project_log_from_simple_json"}
+    # a private helper of the project that only the allowed writers call is a piece of them (a method split into helpers)
+    from ..common import is_private_helper
+    callers = {}
+    for fn in ctx.repo.all_funcs():
+        for cs in ctx.eff.calls.get(id(fn.node), ()):
+            for c in cs.callees:
+                callers.setdefault(c.qualname, set()).add(fn.qualname)
+    ok = {f"{PROJECT}.{n}" for n in allowed}
+    changed = True
+    while changed:
+        changed = False
+        for fn in ctx.repo.all_funcs():
+            if fn.cls == PROJECT and is_private_helper(fn) and fn.qualname not in ok and callers.get(fn.qualname) and callers[fn.qualname] <= ok:
+                ok.add(fn.qualname)
+                changed = True
     for fn in ctx.repo.all_funcs():
         for ef in ctx.eff.of(fn):
             if ef.kind in ("store", "del") and ef.attr == "time" and (ef.cls == PROJECT or (ef.cls is None and fn.cls == PROJECT)):
                 ctx.instance(construct(fn, "time-writer"), sample={"loc": ef.loc, "stmt": ast.unparse(ef.node)[:80]})
-                if fn.cls != PROJECT or fn.name not in allowed:
+                if fn.cls != PROJECT or fn.qualname not in ok:
                     ctx.violation(construct(fn, "time-writer"), ef.loc, f"unexpected writer of project.time: `{ast.unparse(ef.node)[:80]}`")
     f, loop = sim_loop(ctx)
     for i, p in enumerate(loop_paths(ctx, key="plain")):
